@@ -41,6 +41,22 @@ Qed.
 Lemma copy_cells_length dst src n : n <= length src -> n <= length dst -> length (copy_cells dst src n) = length dst.
 Proof. intros. unfold copy_cells. rewrite app_length, firstn_length, skipn_length. lia. Qed.
 
+Lemma fill_cells_length buf a b : a <= length buf -> b <= length buf -> length (fill_cells buf a b) = length buf.
+Proof. intros. unfold fill_cells. rewrite !app_length, firstn_length, repeat_length, skipn_length. lia. Qed.
+Lemma nth_fill_cells buf a b i : a <= length buf -> b <= length buf ->
+  nth_error (fill_cells buf a b) i = if (a <=? i) && (i <? b) then Some (Val 0%Z) else nth_error buf i.
+Proof.
+  intros Ha Hb. unfold fill_cells. rewrite nth_app, firstn_length, Nat.min_l by lia.
+  destruct (Nat.ltb_spec i a) as [H|H].
+  - rewrite nth_firstn. replace (i <? a) with true by (symmetry; apply Nat.ltb_lt; lia).
+    now replace (a <=? i) with false by (symmetry; apply Nat.leb_gt; lia).
+  - replace (a <=? i) with true by (symmetry; apply Nat.leb_le; lia). cbn [andb].
+    rewrite nth_app, repeat_length. destruct (Nat.ltb_spec i b) as [H2|H2].
+    + replace (i - a <? b - a) with true by (symmetry; apply Nat.ltb_lt; lia). rewrite nth_repeat.
+      now replace (i - a <? b - a) with true by (symmetry; apply Nat.ltb_lt; lia).
+    + replace (i - a <? b - a) with false by (symmetry; apply Nat.ltb_ge; lia). rewrite nth_skipn. f_equal. lia.
+Qed.
+
 (* ---------- the heap ---------- *)
 Definition HI (h : heap) (P : nat -> Prop) (c : nat) : Prop :=
   bad h = false /\ (forall id, In id (live h) <-> P id) /\ (forall id, In id (live h) -> id < next h) /\
@@ -88,13 +104,15 @@ Definition ref (buf : list cell) (size : nat) (m : list (option Z)) : Prop :=
   forall i v, nth_error m i = Some (Some v) -> nth_error buf i = Some (Val v).
 Definition vref (o : vobj) m := ref (vbuf o) (vsize o) m.
 
-Definition m_resize (m : list (option Z)) (n : nat) := firstn n m ++ repeat None (n - length m).
+Definition m_resize (m : list (option Z)) (n : nat) := firstn n m ++ repeat (Some 0%Z) (n - length m).
 
-Lemma nth_m_resize_some m n i v : nth_error (m_resize m n) i = Some (Some v) -> nth_error m i = Some (Some v) /\ i < n.
+Lemma nth_m_resize_some m n i v : nth_error (m_resize m n) i = Some (Some v) ->
+  (nth_error m i = Some (Some v) /\ i < n /\ i < length m) \/ (length m <= i /\ i < n /\ v = 0%Z).
 Proof.
   unfold m_resize. rewrite nth_app, firstn_length. destruct (Nat.ltb_spec i (Nat.min n (length m))).
-  - rewrite nth_firstn. destruct (Nat.ltb_spec i n); [auto|discriminate].
-  - rewrite nth_repeat. destruct (_ <? _); discriminate.
+  - rewrite nth_firstn. destruct (Nat.ltb_spec i n); [intros E; left; repeat split; auto; lia | discriminate].
+  - rewrite nth_repeat. destruct (Nat.ltb_spec (i - Nat.min n (length m)) (n - length m)); [|discriminate].
+    intros E. injection E as <-. right. lia.
 Qed.
 Lemma m_resize_length m n : length (m_resize m n) = n.
 Proof. unfold m_resize. rewrite app_length, firstn_length, repeat_length. lia. Qed.
@@ -127,11 +145,12 @@ Proof.
     cbn [vbuf vsize vblk]. split; [|split; [|split]].
     + unfold vref, ref. cbn [vbuf vsize vblk]. split; [now rewrite m_resize_length|]. split.
       * rewrite app_length, firstn_length, repeat_length. lia.
-      * intros i v Hi. apply nth_m_resize_some in Hi as [Hi Hin].
-        assert (i < length m) by (apply nth_error_Some; congruence).
-        rewrite nth_app, firstn_length, Nat.min_l by lia.
-        replace (i <? vsize o) with true by (symmetry; apply Nat.ltb_lt; lia).
-        rewrite nth_firstn. replace (i <? vsize o) with true by (symmetry; apply Nat.ltb_lt; lia). now apply Rv.
+      * intros i v Hi. rewrite nth_app, firstn_length, Nat.min_l by lia.
+        apply nth_m_resize_some in Hi as [(Hi & Hin & Hlt)|(Hge & Hin & ->)].
+        -- replace (i <? vsize o) with true by (symmetry; apply Nat.ltb_lt; lia).
+           rewrite nth_firstn. replace (i <? vsize o) with true by (symmetry; apply Nat.ltb_lt; lia). now apply Rv.
+        -- replace (i <? vsize o) with false by (symmetry; apply Nat.ltb_ge; lia).
+           rewrite nth_repeat. now replace (i - vsize o <? n - vsize o) with true by (symmetry; apply Nat.ltb_lt; lia).
     + eapply HI_ext; [|exact H4]. intros id. unfold own. split.
       * intros [[->|[->|Hq]] Hne]; auto. contradiction.
       * intros [->|Hq]; [split; [now left|]|split; [right; now right|]].
@@ -139,9 +158,15 @@ Proof.
         -- intros ->. contradiction.
     + intros Hq. apply H2. now right.
     + rewrite H5. simpl. exact O.
-  - cbn [fst snd vbuf vsize vblk]. split; [|split; [|split]]; auto.
-    unfold vref, ref. cbn [vbuf vsize vblk]. split; [now rewrite m_resize_length|]. split; [lia|].
-    intros i v Hi. apply nth_m_resize_some in Hi as [Hi _]. now apply Rv.
+  - replace (n <=? length (vbuf o)) with true by (symmetry; apply Nat.leb_le; lia). rewrite chk_true.
+    cbn [fst snd vbuf vsize vblk]. split; [|split; [|split]]; auto.
+    unfold vref, ref. cbn [vbuf vsize vblk]. split; [now rewrite m_resize_length|].
+    split; [rewrite fill_cells_length; lia|].
+    intros i v Hi. rewrite nth_fill_cells by lia.
+    apply nth_m_resize_some in Hi as [(Hi & Hin & Hlt)|(Hge & Hin & ->)].
+    + replace (vsize o <=? i) with false by (symmetry; apply Nat.leb_gt; lia). now apply Rv.
+    + replace (vsize o <=? i) with true by (symmetry; apply Nat.leb_le; lia).
+      now replace (i <? n) with true by (symmetry; apply Nat.ltb_lt; lia).
 Qed.
 
 Lemma v_set_ok h o m Q c i v : vref o m -> HI h (own (vblk o) Q) c -> oob h = false -> i < vsize o ->
@@ -158,8 +183,16 @@ Proof.
   - apply Rv.
 Qed.
 
-Lemma m_resize_grow1 m : m_resize m (length m + 1) = m ++ [None].
+Lemma m_resize_grow1 m : m_resize m (length m + 1) = m ++ [Some 0%Z].
 Proof. unfold m_resize. rewrite firstn_all2 by lia. replace (length m + 1 - length m) with 1 by lia. reflexivity. Qed.
+Lemma vref_weaken_last o m z : vref o (m ++ [Some z]) -> vref o (m ++ [None]).
+Proof.
+  intros (Rs & Rl & Rv). rewrite app_length in Rs. split; [now rewrite app_length|]. split; [exact Rl|].
+  intros i v Hi. apply Rv. rewrite nth_app in *. destruct (i <? length m); [exact Hi|].
+  destruct (i - length m) as [|[|?]]; simpl in *; discriminate.
+Qed.
+Lemma m_resize_nil n : m_resize [] n = repeat (Some 0%Z) n.
+Proof. unfold m_resize. rewrite firstn_nil. simpl. now rewrite Nat.sub_0_r. Qed.
 Lemma upd_last {A} (m : list A) x y : upd (m ++ [x]) (length m) y = m ++ [y].
 Proof. induction m; simpl; [reflexivity | now rewrite IHm]. Qed.
 
@@ -174,7 +207,7 @@ Proof.
   { destruct (Nat.ltb_spec (length (vbuf o)) (vsize o + 1)).
     - pose proof (v_resize_ok h o m Q c (vsize o + 1) R H NQ O) as K. simpl in K.
       destruct (v_resize h o (vsize o + 1)) as [o1 h1]. exists o1, h1. split; [reflexivity|].
-      rewrite Rs, m_resize_grow1 in K. exact K.
+      rewrite Rs, m_resize_grow1 in K. destruct K as (K1 & K2). split; [exact (vref_weaken_last _ _ _ K1) | exact K2].
     - eexists _, _. split; [reflexivity|]. split; [|split; [|split]]; auto.
       unfold vref, ref. cbn [vbuf vsize vblk]. rewrite app_length. simpl. split; [lia|]. split; [lia|].
       intros i w. rewrite nth_app. destruct (Nat.ltb_spec i (length m)); [apply Rv|].
@@ -234,7 +267,7 @@ Definition VI (s : vsys) (m : list (option Z) * list (option Z)) : Prop :=
   vref (oa s) (fst m) /\ vref (ob s) (snd m) /\ HI2 (hp s) (vblk (oa s)) (vblk (ob s)) /\
   vblk (oa s) <> vblk (ob s) /\ oob (hp s) = false.
 
-Definition vmstep := lstep (option Z) None None Some None.
+Definition vmstep := lstep (option Z) (Some 0%Z) (Some 0%Z) Some None.
 
 Lemma VI_init : VI vinit ([], []).
 Proof.
@@ -242,7 +275,7 @@ Proof.
   repeat split; auto; try lia; try (intros i v; destruct i as [|[|[|[|?]]]]; discriminate); intuition lia.
 Qed.
 
-Lemma m_resize_eq m n : m_resize m n = l_resize (option Z) None None m n.
+Lemma m_resize_eq m n : m_resize m n = l_resize (option Z) (Some 0%Z) None m n.
 Proof. reflexivity. Qed.
 
 Lemma VI_step s m o : VI s m -> VI (vstep s o) (vmstep m o).
@@ -259,12 +292,16 @@ Proof.
     unfold VI, v_destroy. cbn [oa ob hp fst snd]. split; [exact K1|]. split; [exact RB|]. split; [exact J1|].
     split; [intros E; apply K3; rewrite E; tauto | rewrite J2; exact K4].
   - (* Ctor *)
-    pose proof (v_new_ok (hp s) _ 2 n n H O ltac:(lia)) as K. unfold v_sized. cbv zeta in K.
-    destruct (v_new (hp s) n n) as [a h1]. cbn [fst snd] in K. destruct K as (K1 & K2 & K3 & K4).
-    destruct (replace_ok h1 (vblk a) (vblk (oa s)) (vblk (ob s)) K2) as (J1 & J2); auto;
-      try (intros E; apply K3; rewrite E; tauto).
-    unfold VI, v_destroy. cbn [oa ob hp fst snd]. split; [exact K1|]. split; [exact RB|]. split; [exact J1|].
-    split; [intros E; apply K3; rewrite E; tauto | rewrite J2; exact K4].
+    unfold v_sized.
+    pose proof (v_new_ok (hp s) _ 2 n 0 H O ltac:(lia)) as K. cbv zeta in K.
+    destruct (v_new (hp s) n 0) as [o1 h1]. cbn [fst snd] in K. destruct K as (K1 & K2 & K3 & K4).
+    pose proof (v_resize_ok h1 o1 _ _ 2 n K1 K2 K3 K4) as L. cbv zeta in L.
+    destruct (v_resize h1 o1 n) as [a h2]. cbn [fst snd] in L. destruct L as (L1 & L2 & L3 & L4).
+    simpl repeat in L1. rewrite m_resize_nil in L1.
+    destruct (replace_ok h2 (vblk a) (vblk (oa s)) (vblk (ob s)) L2) as (J1 & J2); auto;
+      try (intros E; apply L3; rewrite E; tauto).
+    unfold VI, v_destroy. cbn [oa ob hp fst snd]. split; [exact L1|]. split; [exact RB|]. split; [exact J1|].
+    split; [intros E; apply L3; rewrite E; tauto | rewrite J2; exact L4].
   - (* Push *)
     pose proof (v_push_ok (hp s) (oa s) ma _ 1 v RA HA ltac:(congruence) O) as K. cbv zeta in K.
     destruct (v_push (hp s) (oa s) v) as [a h1]. cbn [fst snd] in K. destruct K as (K1 & K2 & K3 & K4).
@@ -396,29 +433,54 @@ Section SV.
   Variable Cap : nat.
   Definition sref (o : sobj) (m : list (option Z)) : Prop := ref (sbuf o) (ssize o) m /\ length (sbuf o) = Cap.
   Definition SI (s : sobj * sobj) (m : list (option Z) * list (option Z)) : Prop := sref (fst s) (fst m) /\ sref (snd s) (snd m).
-  Definition smstep := lstep (option Z) (Some 0%Z) None Some (Some Cap).
+  Definition smstep := lstep (option Z) (Some 0%Z) (Some 0%Z) Some (Some Cap).
 
   Lemma sref_default : sref (s_default Cap) [].
   Proof. unfold sref, ref, s_default. simpl. rewrite repeat_length. repeat split; auto; try lia. intros [|i] v; discriminate. Qed.
 
-  Lemma s_resize_ok o m n : sref o m -> sref (s_resize Cap o n) (l_resize (option Z) None (Some Cap) m n).
+  (* an accepted resize *)
+  Lemma s_resize_fits o m n : n <= Cap -> sref o m -> sref (s_resize Cap o n) (m_resize m n).
   Proof.
-    intros ((Rs & Rl & Rv) & L). unfold s_resize, l_resize, fits. destruct (Nat.leb_spec n Cap) as [H|H].
-    - change (firstn n m ++ repeat None (n - length m)) with (m_resize m n).
-      split; [|exact L]. cbn [sbuf ssize]. split; [now rewrite (m_resize_length m n)|]. split; [lia|].
-      intros i v Hi. apply (nth_m_resize_some m n) in Hi as [Hi _]. now apply Rv.
-    - split; [split; [|split]|]; assumption.
+    intros Hn ((Rs & Rl & Rv) & L). unfold s_resize. replace (n <=? Cap) with true by (symmetry; apply Nat.leb_le; lia).
+    split; cbn [sbuf ssize]; [|rewrite fill_cells_length; lia].
+    split; [now rewrite m_resize_length|]. split; [rewrite fill_cells_length; lia|].
+    intros i v Hi. rewrite nth_fill_cells by lia.
+    apply nth_m_resize_some in Hi as [(Hi & Hin & Hlt)|(Hge & Hin & ->)].
+    - replace (ssize o <=? i) with false by (symmetry; apply Nat.leb_gt; lia). now apply Rv.
+    - replace (ssize o <=? i) with true by (symmetry; apply Nat.leb_le; lia).
+      now replace (i <? n) with true by (symmetry; apply Nat.ltb_lt; lia).
+  Qed.
+  Lemma s_resize_refused o n : Cap < n -> s_resize Cap o n = o.
+  Proof. intros H. unfold s_resize. now replace (n <=? Cap) with false by (symmetry; apply Nat.leb_gt; lia). Qed.
+
+  Lemma s_resize_ok o m n : sref o m -> sref (s_resize Cap o n) (l_resize (option Z) (Some 0%Z) (Some Cap) m n).
+  Proof.
+    intros H. unfold l_resize, fits. destruct (Nat.leb_spec n Cap) as [Hn|Hn].
+    - exact (s_resize_fits o m n Hn H).
+    - now rewrite s_resize_refused.
   Qed.
 
   Lemma s_assign_ok dst md src ms : sref dst md -> sref src ms -> sref (s_assign Cap dst src) ms.
   Proof.
-    intros Hd ((Rs & Rl & Rv) & L). pose proof (s_resize_ok dst md (ssize src) Hd) as K.
-    unfold s_assign. unfold s_resize in *. replace (ssize src <=? Cap) with true in * by (symmetry; apply Nat.leb_le; lia).
-    destruct K as ((Ks & Kl & _) & KL). cbn [sbuf ssize] in *.
+    intros Hd ((Rs & Rl & Rv) & L). assert (Hn : ssize src <= Cap) by lia.
+    pose proof (s_resize_fits dst md (ssize src) Hn Hd) as ((Ks & Kl & _) & KL).
+    unfold s_assign. set (o := s_resize Cap dst (ssize src)) in *.
+    rewrite m_resize_length in Ks.
     split; cbn [sbuf ssize]; [|rewrite copy_cells_length; lia].
-    split; [exact Rs|]. split; [rewrite copy_cells_length; lia|].
+    split; [lia|]. split; [rewrite copy_cells_length; lia|].
     intros i v Hi. assert (i < length ms) by (apply nth_error_Some; congruence).
-    rewrite nth_copy_cells by lia. replace (i <? ssize src) with true by (symmetry; apply Nat.ltb_lt; lia). now apply Rv.
+    rewrite nth_copy_cells by lia. replace (i <? ssize o) with true by (symmetry; apply Nat.ltb_lt; lia). now apply Rv.
+  Qed.
+
+  Lemma s_write_ok o m i v : sref o m -> i < ssize o ->
+    sref (mkS (upd (sbuf o) i (Val v)) (ssize o)) (upd m i (Some v)).
+  Proof.
+    intros ((Rs & Rl & Rv) & L) Hi. split; cbn [sbuf ssize]; [|now rewrite upd_len].
+    split; [now rewrite upd_len|]. split; [rewrite upd_len; lia|].
+    intros j w. rewrite !nth_upd. destruct (Nat.eqb_spec j i) as [->|Hne]; simpl.
+    - replace (i <? length m) with true by (symmetry; apply Nat.ltb_lt; lia).
+      replace (i <? length (sbuf o)) with true by (symmetry; apply Nat.ltb_lt; lia). congruence.
+    - apply Rv.
   Qed.
 
   Lemma SI_step s m o : SI s m -> SI (sstep Cap s o) (smstep m o).
@@ -427,32 +489,23 @@ Section SV.
     pose proof HA as ((As & Al & Av) & AL). pose proof HB as ((Bs & Bl & Bv) & BL).
     destruct o; unfold sstep, smstep, lstep; cbn [fst snd]; unfold SI; cbn [fst snd].
     - split; [apply sref_default | exact HB].
-    - split; [|exact HB]. unfold fits, s_sized, s_resize. destruct (Nat.leb_spec n Cap) as [Hf|Hf]; [|apply sref_default].
-      unfold sref, ref, s_default. cbn [sbuf ssize]. rewrite !repeat_length. repeat split; auto.
-      intros i v. rewrite !nth_repeat. destruct (Nat.ltb_spec i n); [|discriminate].
-      replace (i <? Cap) with true by (symmetry; apply Nat.ltb_lt; lia). congruence.
+    - split; [|exact HB]. unfold fits, s_sized. destruct (Nat.leb_spec n Cap) as [Hf|Hf].
+      + pose proof (s_resize_fits _ _ n Hf sref_default) as K. now rewrite m_resize_nil in K.
+      + rewrite s_resize_refused by lia. apply sref_default.
     - split; [|exact HB]. unfold s_push, fits. rewrite <- As.
       destruct (Nat.ltb_spec Cap (ssize a + 1)) as [H|H].
       + replace (ssize a + 1 <=? Cap) with false by (symmetry; apply Nat.leb_gt; lia). exact HA.
       + replace (ssize a + 1 <=? Cap) with true by (symmetry; apply Nat.leb_le; lia).
-        unfold s_resize. replace (ssize a + 1 <=? Cap) with true by (symmetry; apply Nat.leb_le; lia).
-        cbn [sbuf ssize]. split; cbn [sbuf ssize]; [|now rewrite upd_len].
-        split; [rewrite app_length; simpl; lia|]. split; [rewrite upd_len; lia|].
-        intros i w. rewrite nth_app, nth_upd. replace (ssize a + 1 - 1) with (length ma) by lia.
-        destruct (Nat.ltb_spec i (length ma)).
-        * replace (i =? length ma) with false by (symmetry; apply Nat.eqb_neq; lia). apply Av.
-        * destruct (i - length ma) as [|[|?]] eqn:E; simpl; try discriminate.
-          replace (i =? length ma) with true by (symmetry; apply Nat.eqb_eq; lia).
-          replace (length ma <? length (sbuf a)) with true by (symmetry; apply Nat.ltb_lt; lia). simpl. congruence.
+        pose proof (s_resize_fits a ma (ssize a + 1) H HA) as K. rewrite As, m_resize_grow1 in K. rewrite As.
+        set (o1 := s_resize Cap a (length ma + 1)) in *.
+        assert (E1 : ssize o1 = length ma + 1) by (destruct K as ((K1 & _) & _); rewrite K1, app_length; simpl; lia).
+        pose proof (s_write_ok o1 _ (ssize o1 - 1) v K ltac:(lia)) as W.
+        replace (ssize o1 - 1) with (length ma) in W by lia. rewrite upd_last in W.
+        replace (ssize o1 - 1) with (length ma) by lia. exact W.
     - split; [now apply s_resize_ok | exact HB].
     - rewrite <- As. destruct (Nat.ltb_spec i (ssize a)) as [H|H]; cbn [andb].
       + replace (i <? Cap) with true by (symmetry; apply Nat.ltb_lt; lia). cbn [fst snd].
-        split; [|exact HB]. split; cbn [sbuf ssize]; [|now rewrite upd_len].
-        split; [now rewrite upd_len|]. split; [rewrite upd_len; lia|].
-        intros j w. rewrite !nth_upd. destruct (Nat.eqb_spec j i) as [->|Hne]; simpl.
-        * replace (i <? length ma) with true by (symmetry; apply Nat.ltb_lt; lia).
-          replace (i <? length (sbuf a)) with true by (symmetry; apply Nat.ltb_lt; lia). congruence.
-        * apply Av.
+        split; [now apply s_write_ok | exact HB].
       + split; assumption.
     - split; exact HA.
     - split; [exact HA | now apply (s_assign_ok b mb a ma)].
@@ -524,19 +577,66 @@ Proof.
   - unfold s_resize. now replace (n <=? Cap) with false by (symmetry; apply Nat.leb_gt; lia).
 Qed.
 
+Lemma fill_cells_same buf a : fill_cells buf a a = buf.
+Proof. unfold fill_cells. rewrite Nat.sub_diag, Nat.max_id. simpl. apply firstn_skipn. Qed.
+
 Lemma self_assign_identity s m : VI s m -> vstep s SelfAssign = s.
 Proof.
   intros ((Rs & Rl & _) & _). unfold vstep, v_assign, v_resize, v_copy_into.
   replace (length (vbuf (oa s)) <? vsize (oa s)) with false by (symmetry; apply Nat.ltb_ge; lia).
+  rewrite fill_cells_same.
   cbn [vbuf vsize vblk]. replace (vsize (oa s) <=? length (vbuf (oa s))) with true by (symmetry; apply Nat.leb_le; lia).
-  cbn [andb]. rewrite chk_true. unfold copy_cells. rewrite firstn_skipn. destruct s as [[ab asz ak] b h]. reflexivity.
+  cbn [andb]. rewrite !chk_true. unfold copy_cells. rewrite firstn_skipn. destruct s as [[ab asz ak] b h]. reflexivity.
 Qed.
 
 (* operations on A never touch B *)
 Definition a_only (o : op) : bool := match o with CopyCtor | AssignAB | Flip => false | _ => true end.
 Lemma copies_independent s o : a_only o = true -> ob (vstep s o) = ob s.
 Proof.
-  destruct o; intros H; try discriminate; unfold vstep;
-    try (destruct (i <? vsize (oa s)); [|reflexivity]);
-    repeat match goal with |- context [let (_, _) := ?e in _] => destruct e end; reflexivity.
+  destruct o; intros H; try discriminate; unfold vstep.
+  - destruct (v_default (hp s)); reflexivity.
+  - destruct (v_sized (hp s) n); reflexivity.
+  - destruct (v_push (hp s) (oa s) v); reflexivity.
+  - destruct (v_resize (hp s) (oa s) n); reflexivity.
+  - destruct (i <? vsize (oa s)); [destruct (v_set (hp s) (oa s) i (Val v))|]; reflexivity.
+  - destruct (v_assign (hp s) (oa s) (ob s)); reflexivity.
+  - destruct (v_assign (hp s) (oa s) (oa s)); reflexivity.
+Qed.
+
+
+(* ---------- full refinement: every cell of the option-valued run is fixed to the std value ---------- *)
+Definition is_some_of (m : option Z) (z : Z) : Prop := m = Some z.
+Lemma some_run cap ops :
+  Forall2 is_some_of (fst (lrun (option Z) (Some 0%Z) (Some 0%Z) Some cap ops)) (fst (std_run cap ops)) /\
+  Forall2 is_some_of (snd (lrun (option Z) (Some 0%Z) (Some 0%Z) Some cap ops)) (snd (std_run cap ops)).
+Proof. apply lrun_param; unfold is_some_of; auto. Qed.
+
+Lemma ref_full buf size m l : ref buf size m -> Forall2 is_some_of m l ->
+  firstn size buf = map Val l /\ size = length l /\ size <= length buf.
+Proof.
+  intros Hr HF.
+  assert (HM : Forall2 mask_ok m l).
+  { clear Hr. induction HF as [|x z m l Hx HF IH]; [constructor|]. constructor; [|exact IH]. unfold is_some_of in Hx. subst x. reflexivity. }
+  assert (HD : determined m = true).
+  { clear Hr HM. induction HF as [|x z m l Hx HF IH]; [reflexivity|]. unfold is_some_of in Hx. subst x. exact IH. }
+  pose proof (agrees_intro buf size m l Hr HM) as (A1 & A2 & _ & A4). auto.
+Qed.
+
+Lemma vector_refinement_full ops :
+  let s := vrun ops in let l := std_run None ops in
+  (vcontents (oa s) = map Val (fst l) /\ vsize (oa s) = length (fst l) /\ vsize (oa s) <= length (vbuf (oa s))) /\
+  (vcontents (ob s) = map Val (snd l) /\ vsize (ob s) = length (snd l) /\ vsize (ob s) <= length (vbuf (ob s))).
+Proof.
+  cbv zeta. destruct (VI_run ops) as (RA & RB & _). destruct (some_run None ops) as [FA FB].
+  split; [exact (ref_full _ _ _ _ RA FA) | exact (ref_full _ _ _ _ RB FB)].
+Qed.
+
+Lemma static_vector_refinement_full Cap ops :
+  let s := srun Cap ops in let l := std_run (Some Cap) ops in
+  (scontents (fst s) = map Val (fst l) /\ ssize (fst s) = length (fst l) /\ ssize (fst s) <= Cap /\ length (sbuf (fst s)) = Cap) /\
+  (scontents (snd s) = map Val (snd l) /\ ssize (snd s) = length (snd l) /\ ssize (snd s) <= Cap /\ length (sbuf (snd s)) = Cap).
+Proof.
+  cbv zeta. destruct (SI_run Cap ops) as ((RA & LA) & (RB & LB)). destruct (some_run (Some Cap) ops) as [FA FB].
+  destruct (ref_full _ _ _ _ RA FA) as (A1 & A2 & A3). destruct (ref_full _ _ _ _ RB FB) as (B1 & B2 & B3).
+  unfold scontents. split; (split; [assumption|]; split; [assumption|]; split; [lia | assumption]).
 Qed.
